@@ -89,9 +89,8 @@ func FindFunc(name string, pkgs ...*Package) (fi *FuncInfo) {
 			pkg = pkgs[0]
 		}
 	}
-	if fi = pkg.funcs[vname]; fi == nil {
-		vname = strings.ToLower(vname)
-		fi = pkg.funcs[vname]
+	if fi = pkg.GetFunc(vname); fi == nil {
+		fi = pkg.GetFunc(strings.ToLower(vname))
 	}
 	if fi != nil {
 		if private || fi.Export || CurrentPackage == fi.Pkg {
@@ -345,9 +344,10 @@ func CompileList(list List) (f Object) {
 		switch ta := list[0].(type) {
 		case Symbol:
 			name := strings.ToLower(string(ta))
-			if fi := CurrentPackage.funcs[name]; fi != nil {
-				f = fi.Create(list[1:])
-			} else {
+			pkg := CurrentPackage
+			pkg.mu.Lock()
+			fi := pkg.funcs[name]
+			if fi == nil {
 				lc := Lambda{
 					Doc: &FuncDoc{
 						Name: name,
@@ -355,7 +355,7 @@ func CompileList(list List) (f Object) {
 					},
 					Forms: List{Undefined(name)},
 				}
-				CurrentPackage.lambdas[name] = &lc
+				pkg.lambdas[name] = &lc
 				fc := func(args List) Object {
 					return &Dynamic{
 						Function: Function{
@@ -365,9 +365,11 @@ func CompileList(list List) (f Object) {
 						},
 					}
 				}
-				CurrentPackage.funcs[name] = &FuncInfo{Create: fc, Pkg: CurrentPackage, Export: true}
-				f = fc(list[1:])
+				fi = &FuncInfo{Create: fc, Pkg: pkg, Export: true}
+				pkg.funcs[name] = fi
 			}
+			pkg.mu.Unlock()
+			f = fi.Create(list[1:])
 			if funk, ok := f.(Funky); ok {
 				funk.CompileArgs()
 			}
@@ -400,7 +402,7 @@ func DescribeFunction(sym Symbol, pkg ...*Package) *FuncDoc {
 	if 0 < len(pkg) {
 		p = pkg[0]
 	}
-	if fi, has := p.funcs[name]; has {
+	if fi := p.GetFunc(name); fi != nil {
 		return fi.Doc
 	}
 	return nil
